@@ -68,9 +68,12 @@ package utils
 //@   ensures[definite-assign] result ==> assigned(kv.key) && assigned(kv.value)
 //@   loop 0: invariant[key-first] !isKey ==> assigned(kv.key)
 
+// ghost.argAllocs: how many slots allocArg has made visible
+//@ ghost global argAllocs int
 //@ func allocArg
 //@   property C20
-//@   modifies allelems(type(argsKV))
+//@   modifies allelems(type(argsKV)), ghost.argAllocs
+//@   ghostset ghost.argAllocs = old(ghost.argAllocs) + 1
 //@   ensures[one-more] len(result.0) == len(h) + 1 && result.1 == addr(result.0[len(h)])
 
 //@ func appendArg
@@ -81,8 +84,13 @@ package utils
 
 //@ func (*Args).ParseBytes
 //@   property C20
-//@   modifies a.args, allelems(type(argsKV)), allelems(type(byte))
+//@   modifies a.args, allelems(type(argsKV)), allelems(type(byte)), ghost.argAllocs
 //@   loop 0: invariant[slot] kv != nil
+// the scanner always works on one spare slot beyond the accepted pairs; that slot -
+// which on a recycled Args still holds a previous user's pair - is dropped at the
+// end whatever it contains
+//@   loop 0: invariant[one-spare-slot] len(a.args) == ghost.argAllocs - old(ghost.argAllocs) && len(a.args) >= 1
+//@   ensures[spare-slot-dropped] len(a.args) == ghost.argAllocs - old(ghost.argAllocs) - 1
 
 //@ func releaseArg
 //@   property C20
